@@ -10,7 +10,9 @@ NEED = ("h4x",)
 RULE = ("histories (<=30 ops) of ANcreate/ANcreatef of the four annotation types on up to 4 target tag/refs, "
         "ANwriteann with texts of 1..5000 bytes (empty text is refused cleanly by ANwriteann) (descriptions with embedded NULs), rewrite with longer/shorter text, "
         "ANendaccess, ANend/reopen, plus single-file DFANputlabel/DFANputdesc/DFANaddfid/DFANaddfds read back through "
-        "AN; after every mutator and after the final reopen: ANfileinfo, ANselect/ANget_tagref enumeration of each "
+        "AN, and DFANgetlablen/getlabel/getdesclen/getdesc on this file and on a second file that only the single-file "
+        "interface writes (alternating between the two files without DFANclear; DFANclear only after the multi-file "
+        "interface changed the file); after every mutator and after the final reopen: ANfileinfo, ANselect/ANget_tagref enumeration of each "
         "type, ANnumann/ANannlist per target, ANannlen/ANreadann of every annotation, ANid2tagref<->ANtagref2id; dict "
         "model, listings compared as multisets. Non-trivial = >=2 annotations of one type on one object, a rewrite "
         "with different length, or reopen with >=5 annotations.")
@@ -55,11 +57,18 @@ def strategy_(draw, tier):
         elif c < 65 and n:
             ops.append(["rewrite", draw(st.integers(0, n - 1)), ln, draw(st.integers(0, 99))])
         elif c < 75:
-            ops.append(["reopen"])
-        elif c < 85:
+            ops.append(["reopen", draw(st.integers(0, 1))])      # 1: the next call in the new session is not a listing
+        elif c < 82:
             ops.append(["dfan", draw(st.sampled_from(["label", "desc", "fid", "fds"])),
                         draw(st.integers(0, len(TARGETS) - 1)), max(ln, 1) if True else ln, draw(st.integers(0, 99))])
             n += 1
+        elif c < 87:
+            # the single-file interface applied to a second file in the same process
+            ops.append(["dfan2", draw(st.sampled_from(["label", "desc"])), draw(st.integers(0, len(TARGETS) - 1)),
+                        max(ln, 1), draw(st.integers(0, 99))])
+        elif c < 94:
+            ops.append(["dfanget", draw(st.integers(0, 1)), draw(st.sampled_from(["label", "desc"])),
+                        draw(st.integers(0, len(TARGETS) - 1))])
         else:
             ops.append(["observe"])
     return {"ops": ops}
@@ -111,10 +120,14 @@ def run_case(case):
         # program static we emit reads for every slot created so far instead
         slot_meta = []   # (type, target index, variable names)
         has = set()
+        has2 = set()
+        path2 = os.path.join(d, "other.hdf")
+        an_dirty = False
         for op in case["ops"]:
             k = op[0]
             if k == "create":
                 ensure_an()
+                an_dirty = True
                 _, t, tgt, ln, seed = op
                 label = t in (DL, FL)
                 txt = text_for(seed, ln, label)
@@ -138,6 +151,7 @@ def run_case(case):
                         S("read", p.call("i", "hx_an_read", V("an"), V("at%d" % q), V("ar%d" % q), Out(5200), 5200), q)
             elif k == "rewrite":
                 ensure_an()
+                an_dirty = True
                 _, s, ln, seed = op
                 if s >= nslots or not slot_meta[s][2]:
                     continue
@@ -152,6 +166,8 @@ def run_case(case):
                 close_an()
                 ensure_an()
                 S("reopened", None)
+                if len(op) > 1 and op[1]:
+                    continue
                 for t2 in (DL, DD, FL, FD):
                     S("all", p.call("i", "hx_an_all", V("an"), t2, Out(20 * 400), 400), t2)
             elif k == "dfan":
@@ -189,6 +205,37 @@ def run_case(case):
                     S("all", p.call("i", "hx_an_all", V("an"), t2, Out(20 * 400), 400), t2)
                 if what == "label":
                     S("dfanget", p.call("i", "hx_an_list", V("an"), DL, tt, tr, Out(12 * 400), 400), DL, tgt)
+            elif k == "dfan2":
+                _, what, tgt, ln, seed = op
+                key = (DL if what == "label" else DD, tgt)
+                if key in has2:
+                    continue
+                has2.add(key)
+                tt, tr = TARGETS[tgt]
+                if what == "label":
+                    txt = text_for(seed + 50, ln, True)
+                    S("dfan2", p.call("i", "DFANputlabel", path2, tt, tr, txt + b"\0"), DL, tgt, txt)
+                else:
+                    txt = text_for(seed + 50, ln, False)
+                    S("dfan2", p.call("i", "DFANputdesc", path2, tt, tr, txt, ln), DD, tgt, txt)
+            elif k == "dfanget":
+                _, fi, what, tgt = op
+                tt, tr = TARGETS[tgt]
+                t = DL if what == "label" else DD
+                if fi == 0:
+                    close_an()
+                    if an_dirty:
+                        # the multi-file interface changed the file behind the single-file interface's cached
+                        # directory: DFANclear is the documented way to drop that cache
+                        S("ret0", p.call("i", "DFANclear"), "DFANclear")
+                        an_dirty = False
+                pth = path if fi == 0 else path2
+                if what == "label":
+                    S("dfanlen", p.call("i", "DFANgetlablen", pth, tt, tr), fi, t, tgt)
+                    S("dfantxt", p.call("i", "DFANgetlabel", pth, tt, tr, OutS(5300), 5300), fi, t, tgt)
+                else:
+                    S("dfanlen", p.call("i", "DFANgetdesclen", pth, tt, tr), fi, t, tgt)
+                    S("dfantxt", p.call("i", "DFANgetdesc", pth, tt, tr, Out(5300), 5300), fi, t, tgt)
             else:
                 ensure_an()
                 observe()
@@ -208,6 +255,7 @@ def run_case(case):
         slots = {}    # slot -> (ann_tag, ann_ref)
         pending = {}  # slot -> (type, target)
         dfan_anns = []   # annotations created through DFAN: (type, target, text), identity unknown
+        other = {}       # second file, single-file interface only: (type, target) -> text
         try:
             if rr.harness_error:
                 raise Fail("harness error", detail=rr.harness_error)
@@ -263,6 +311,36 @@ def run_case(case):
                         raise Fail("DFAN call failed", call=what)
                     dfan_anns.append(dict(type=t, target=tgt, text=txt))
                     labels.add("dfan")
+                elif role == "dfan2":
+                    t, tgt, txt = a
+                    if r.ret != 0:
+                        raise Fail("DFAN call on the second file failed", call=what)
+                    other[(t, tgt)] = txt
+                    labels.add("dfan_two_files")
+                elif role in ("dfanlen", "dfantxt"):
+                    fi, t, tgt = a
+                    if fi == 0:
+                        cands = [v_["text"] for v_ in model.values() if v_["type"] == t and v_["target"] == tgt] + \
+                                [x["text"] for x in dfan_anns if x["type"] == t and x["target"] == tgt]
+                    else:
+                        cands = [other[(t, tgt)]] if (t, tgt) in other else []
+                    labels.add("dfan_get")
+                    if not cands:
+                        if r.ret != -1:
+                            raise Fail("DFAN returned an annotation for an object that has none", call=what, ret=r.ret)
+                    elif role == "dfanlen":
+                        if r.ret not in [len(c_) for c_ in cands]:
+                            raise Fail("DFAN annotation length differs from every annotation of the object",
+                                       call=what, file=fi, expected=[len(c_) for c_ in cands], observed=r.ret)
+                    else:
+                        if r.ret != 0:
+                            raise Fail("DFAN could not read an existing annotation", call=what, file=fi, ret=r.ret)
+                        got = r.bufs[0]
+                        if t == DL:
+                            got = got.split(b"\0")[0] if isinstance(got, bytes) else got.encode("latin-1")
+                        if not any(got[:len(c_)] == c_ for c_ in cands):
+                            raise Fail("DFAN returned a text that no annotation of the object has", call=what,
+                                       file=fi, expected=[c_[:24].hex() for c_ in cands], observed=got[:24].hex())
                 elif role == "read":
                     q = a[0]
                     ent = model[slots[q]]
